@@ -49,6 +49,14 @@ def run(tier):
                         "MULTI/EXEC at executor level are excluded (C05)"]
     # node level: a WAL on a misbehaving disk; an error reply and a changed value never go together
     tr = os.path.join(wd, "node_errs.ndjson")
+    # two-key commands against a destination of the wrong type with a live TTL, none, or one about to lapse (every direction,
+    # a source of one or two elements): the error must leave source, destination and TTLs alone
+    fam = kc.wrongtype_dest_scenarios()
+    p = vlib.write_ndjson(os.path.join(wd, "wrongtype_dest.ndjson"), fam)
+    tr = os.path.join(wd, "wrongtype_dest.trace.ndjson")
+    vlib.vh(["ks", "replay", p, "--out", tr])
+    kc.validate(rep, wd, tr, "wrongtype_destination", cfg="KsTraceC17")
+    os.remove(tr)
     vlib.vh(["node", "errs", "--seed", vlib.seed(), "--n", 2000 if tier == "thorough" else 300, "--out", tr])
     kc.validate(rep, wd, tr, "node_errors", cfg="KsTraceC17")
     os.remove(tr)
